@@ -712,9 +712,102 @@ func twoUploads(x *explore.X) {
 	}
 }
 
+// ---- cleartext HTTP inside an intercepted CONNECT ------------------------------------------------------------------
+
+// cleartextInMITM: with MITM on, a CONNECT whose first tunnelled byte is not a TLS hello carries plain HTTP/1.x
+// (what browsers do for ws:// through a proxy). The client may send the CONNECT head, the first request and
+// its body - of every size of the alphabet, i.e. below, at and above the 4 KiB reader buffer - in ONE segment,
+// followed by a second pipelined request. The origin must receive every request with its body intact.
+func cleartextInMITM(x *explore.X) {
+	size := sizes[x.ChooseFree("size", len(sizes))]
+	oneSegment := x.ChooseFree("connect-and-first-request-in-one-segment", 2) == 1
+	second := x.ChooseFree("second-request-pipelined", 2) == 1
+	framing := []string{"cl", "chunked"}[x.ChooseFree("framing", 2)]
+	w, err := world.Start(world.Options{MITM: true})
+	if err != nil {
+		x.Failf("harness/start", "%v", err)
+		return
+	}
+	nh, _ := w.Hop(originHost+":80", nil)
+	cl, _ := w.Client()
+	r1 := reqSpec{proto: "HTTP/1.1", method: "POST", form: 0, pathq: "/first", framing: framing, body: h1x.Pattern(size, 31)}
+	r2 := reqSpec{proto: "HTTP/1.1", method: "GET", form: 0, pathq: "/second"}
+	m1 := r1.msg()
+	flight := append(append([]byte{}, m1.Head()...), m1.BodyWire()...)
+	if second {
+		flight = append(flight, r2.msg().Wire()...)
+	}
+	connect := []byte("CONNECT " + originHost + ":80 HTTP/1.1\r\nHost: " + originHost + ":80\r\n\r\n")
+	if oneSegment {
+		cl.Send(append(append([]byte{}, connect...), flight...))
+	} else {
+		cl.Send(connect)
+		cl.Send(flight)
+	}
+	x.Check()
+	what := fmt.Sprintf("body %d bytes (%s), CONNECT and first request in one segment: %v, second request pipelined: %v", size, framing, oneSegment, second)
+	if !strings.HasPrefix(string(cl.Recv()), "HTTP/1.1 200 OK\r\n\r\n") {
+		x.Failf("mitm/connect-reply", "%s: CONNECT answered %q", what, world.Clip(cl.Recv()))
+		return
+	}
+	want := []reqSpec{r1}
+	if second {
+		want = append(want, r2)
+	}
+	var got []httpwire.Msg
+	for range want {
+		msgs, conns, problem := nh.Next()
+		if len(msgs) == 0 {
+			x.Failf("cleartext-in-mitm/not-forwarded", "%s: the origin holds %d of %d requests (%s); its stream: %q", what, len(got), len(want), problem, world.Clip(func() []byte {
+				if len(nh.Conns) > 0 {
+					return nh.Conns[0].Recv()
+				}
+				return nil
+			}()))
+			return
+		}
+		for i, m := range msgs {
+			got = append(got, m)
+			nh.Conns[conns[i]].Send(okResponse(m.Method))
+		}
+		if len(got) >= len(want) {
+			break
+		}
+	}
+	if len(got) != len(want) {
+		x.Failf("cleartext-in-mitm/request-count", "%s: the origin received %d requests, want %d", what, len(got), len(want))
+		return
+	}
+	for i, r := range want {
+		g := got[i]
+		if g.Method != r.method || g.Target != r.pathq {
+			x.Failf("cleartext-in-mitm/request-line", "%s: request %d arrived as %q, want %s %s", what, i+1, g.StartLine, r.method, r.pathq)
+			return
+		}
+		if !bytes.Equal(g.Body, r.body) {
+			k := 0
+			for k < len(g.Body) && k < len(r.body) && g.Body[k] == r.body[k] {
+				k++
+			}
+			x.Failf("cleartext-in-mitm/body", "%s: request %d: the origin received a body of %d bytes, the client sent %d (first difference at offset %d)", what, i+1, len(g.Body), len(r.body), k)
+			return
+		}
+	}
+	x.Outcome(fmt.Sprintf("%d/%v/%v/%s", size, oneSegment, second, framing))
+	cl.Close()
+	if err := w.Stop(); err != nil {
+		x.Failf("shutdown", "%v", err)
+	}
+	nh.Shutdown()
+	world.Settle(5 * time.Second)
+	if l := world.Leaks(); l != "" {
+		x.Failf("goroutine-leak", "%s", l)
+	}
+}
+
 func TestC01(t *testing.T) {
 	s := explore.NewSuite(t, "C01", "exploration",
-		"one client connection carrying 0-2 history requests (5 kinds) and one request under test = method(6) x target form(3-4) x path/query(7) x header shape(24) x body framing(3) x size(9) x chunking(4) x version(2) x write segmentation(9) x configuration(direct, upstream HTTP proxy, MITM'd CONNECT tunnel to a TLS origin) x configured --header rule set(7); all combinations with at most D deviations from the default request (D=3 quick, 4 thorough); plus the full product body framing(2) x size(9) x chunking(4) x segmentation(9) x history(11) x configuration(2 quick, 3 thorough) for POST are executed on the real HTTPProxy over the in-memory network and every request captured at the next hop is compared with expectForwarded; non-trivial = at least one forwarded request was compared; plus (two-uploads) two connections uploading at once, one next-hop connection not reading in the middle of a 70000-byte body while the other upload completes, framing x framing x size x {direct, upstream proxy}, both compared exactly; plus (concurrent-via, Engine T) the proxy's single Via modifier used by two requests at once, every interleaving of its statements within 2 (quick) / 3 (thorough) preemptions: each request leaves with its own Via chain plus one element")
+		"one client connection carrying 0-2 history requests (5 kinds) and one request under test = method(6) x target form(3-4) x path/query(7) x header shape(24) x body framing(3) x size(9) x chunking(4) x version(2) x write segmentation(9) x configuration(direct, upstream HTTP proxy, MITM'd CONNECT tunnel to a TLS origin) x configured --header rule set(7); all combinations with at most D deviations from the default request (D=3 quick, 4 thorough); plus the full product body framing(2) x size(9) x chunking(4) x segmentation(9) x history(11) x configuration(2 quick, 3 thorough) for POST are executed on the real HTTPProxy over the in-memory network and every request captured at the next hop is compared with expectForwarded; non-trivial = at least one forwarded request was compared; plus (two-uploads) two connections uploading at once, one next-hop connection not reading in the middle of a 70000-byte body while the other upload completes, framing x framing x size x {direct, upstream proxy}, both compared exactly; plus (concurrent-via, Engine T) the proxy's single Via modifier used by two requests at once, every interleaving of its statements within 2 (quick) / 3 (thorough) preemptions: each request leaves with its own Via chain plus one element; plus (cleartext-in-mitm) plain HTTP/1.x inside an intercepted CONNECT: body size(9) x framing x {CONNECT head and first request in one segment, separate} x {second request pipelined, not} [full product], bodies compared at the origin")
 	s.Assume = []string{"simnet models TCP (in-order, reliable, segment boundaries preserved per write)", "httpwire (independent strict parser) is trusted", "crypto/tls of the Go toolchain is used by the scripted TLS peers"}
 	bubble := func(f func(x *explore.X)) func(x *explore.X) {
 		return func(x *explore.X) { world.Run(t, x, func() { f(x) }) }
@@ -726,6 +819,7 @@ func TestC01(t *testing.T) {
 	s.Add(explore.Scenario{Name: "body-product+mitm", Remote: true, Tiers: []string{"thorough"},
 		Run: bubble(func(x *explore.X) { scenario(x, true, 3) })})
 	s.Add(explore.Scenario{Name: "two-uploads", Remote: true, Run: bubble(twoUploads)})
+	s.Add(explore.Scenario{Name: "cleartext-in-mitm", Remote: true, Run: bubble(cleartextInMITM)})
 	s.Add(explore.Scenario{Name: "concurrent-via", Remote: true, MaxDev: map[string]int{"quick": 2, "thorough": 3},
 		Run: func(x *explore.X) { tcore.ConcurrentVia(t, x) }})
 	s.Main()
